@@ -305,7 +305,30 @@ func (h *H) limb(w int, style int, maxv uint64) uint64 {
 // fieldLimbs returns 10 limbs of magnitude ≤ m in one of several boundary styles
 func (h *H) fieldLimbs(m uint64) []uint64 {
 	o := make([]uint64, 10)
-	mode := h.rng.Intn(8)
+	mode := h.rng.Intn(9)
+	if mode == 8 {
+		// every limb at its canonical maximum (value just below/above p) except ONE limb, which is lowered by a
+		// small or random amount; low limbs in the window where the final conditional subtraction is decided
+		for i := range o {
+			o[i] = (1 << 26) - 1
+		}
+		o[9] = (1 << 22) - 1
+		j := 2 + h.rng.Intn(8)
+		switch h.rng.Intn(3) {
+		case 0:
+			o[j]--
+		case 1:
+			o[j] -= uint64(1) << uint(h.rng.Intn(20))
+		default:
+			o[j] = uint64(h.rng.Intn(int(o[j])))
+		}
+		o[0] = 0x3fffc2f - 2 + uint64(h.rng.Intn(5))
+		o[1] = 0x3ffffbf - 1 + uint64(h.rng.Intn(3))
+		if h.rng.Intn(2) == 0 {
+			o[0], o[1] = (1<<26)-1, (1<<26)-1
+		}
+		return o
+	}
 	for i := range o {
 		maxv := m * ((1 << 26) - 1)
 		if i == 9 {
@@ -406,6 +429,48 @@ func fmtU(v []uint64) string {
 	return strings.Join(s, " ")
 }
 
+// scalar operand pairs (a, b) with a*b mod N = r for r in the carry windows of the reduction
+func (h *H) scalarCarryPairs(n int) [][2][]uint64 {
+	words := func(v *big.Int) []uint64 {
+		o := make([]uint64, 8)
+		t := new(big.Int).Set(v)
+		mask := big.NewInt(0xffffffff)
+		for i := range o {
+			o[i] = new(big.Int).And(t, mask).Uint64()
+			t.Rsh(t, 32)
+		}
+		return o
+	}
+	two256 := new(big.Int).Lsh(big.NewInt(1), 256)
+	c := new(big.Int).Sub(two256, curveN)
+	var targets []*big.Int
+	for _, d := range []int64{0, 1, 2, 5, 1000} {
+		targets = append(targets, new(big.Int).Add(c, big.NewInt(d)), new(big.Int).Sub(c, big.NewInt(d+1)))
+	}
+	targets = append(targets, big.NewInt(0), big.NewInt(1), new(big.Int).Sub(curveN, big.NewInt(1)), new(big.Int).Lsh(c, 1))
+	var out [][2][]uint64
+	for len(out) < n {
+		r := targets[h.rng.Intn(len(targets))]
+		b := new(big.Int).SetBytes(h.randBytes(32))
+		b.SetBit(b, 255, 1).SetBit(b, 254, 1) // large operand
+		b.Mod(b, curveN)
+		if b.Sign() == 0 {
+			continue
+		}
+		a := new(big.Int).ModInverse(b, curveN)
+		a.Mul(a, r).Mod(a, curveN)
+		// also the non-canonical representative a + N when it still fits 256 bits (Mul2 accepts any 256-bit operand)
+		if h.rng.Intn(3) == 0 {
+			an := new(big.Int).Add(a, curveN)
+			if an.BitLen() <= 256 {
+				a = an
+			}
+		}
+		out = append(out, [2][]uint64{words(a), words(b)})
+	}
+	return out
+}
+
 func genKernels(h *H, prefixes ...string) {
 	loadKernelSigs()
 	per := 300 * h.budget
@@ -425,7 +490,16 @@ func genKernels(h *H, prefixes ...string) {
 			name == "Scalar_Add2" || name == "Scalar_reduce385" || name == "Scalar_reduce512" || name == "Scalar_SetBytes" {
 			n = per * 4
 		}
+		var carryPairs [][2][]uint64
+		if name == "Scalar_Mul2" {
+			carryPairs = h.scalarCarryPairs(n / 3)
+		}
 		for it := 0; it < n; it++ {
+			if name == "Scalar_Mul2" && it < len(carryPairs) {
+				in := append(append(append([]uint64{}, h.scalarWords(false)...), carryPairs[it][0]...), carryPairs[it][1]...)
+				h.do(name+"/carry-window", "kern", name, fmtU(in))
+				continue
+			}
 			// magnitude budget per kernel (documented preconditions)
 			mag := uint64(1)
 			switch name {
